@@ -14,6 +14,15 @@ def run(ctx):
         behs = vlib.gen_behaviours(ctx, "GenWatch", "GenWatch.cfg", num=n, depth=depth * 4, name="gen-%d-%d-%d" % (ic, mc, gap), workers=4,
                                    env={"INITCAP": ic, "MAXCAP": mc, "GAP": gap, "GEN_DEPTH": depth, "GEN_FAULTS": "1"})[:n]
         groups.append({"initcap": ic, "maxcap": mc, "gap": gap, "behs": behs})
+    # regression corpus: behaviours on which defects were found (known_findings.json), replayed in every run
+    cdir = os.path.join(vlib.VERIF, "corpus")
+    ncorpus = 0
+    for f in sorted(os.listdir(cdir)):
+        if f.startswith("c13-"):
+            for g in json.load(open(os.path.join(cdir, f))):
+                groups.append(g)
+                ncorpus += len(g["behs"])
+    ctx.cov["corpus_behaviours"] = ncorpus
     ctx.cov["behaviours_replayed"] = sum(len(g["behs"]) for g in groups)
     ctx.cov["fault_commands"] = sum(1 for g in groups for b in g["behs"] for c in b if c["c"] == "fault")
     ctx.sample({"commands_head": [c for c in groups[0]["behs"][0] if c["c"] in ("fault", "wait", "start")][:6]})
